@@ -138,7 +138,31 @@ func c13Exec(op string) string {
 			}
 			parts = append(parts, jsonResKind(err)+" "+encStr(string(raw)))
 		}
-		return "ok " + strings.Join(parts, " ; ")
+		// the scanner's answers depend on the bytes only: the same bytes delivered in one piece (no
+		// empty reads, no byte+EOF, no failing read) give the same sequence of results
+		note := ""
+		if !hasFail(s) {
+			var data []byte
+			for _, x := range s {
+				if x.kind == '1' || x.kind == 'E' {
+					data = append(data, x.b)
+				}
+			}
+			plain := bytes.NewReader(data)
+			var pp []string
+			for i := 0; i < n; i++ {
+				raw, isNil, err := mxj.VerifGetJson(plain)
+				if isNil {
+					pp = append(pp, jsonResKind(err)+" NILRAW")
+					continue
+				}
+				pp = append(pp, jsonResKind(err)+" "+encStr(string(raw)))
+			}
+			if strings.Join(pp, " ; ") != strings.Join(parts, " ; ") {
+				note = "SCHEDULE the scanner returns other documents for the same bytes under this delivery schedule than when they arrive in one piece"
+			}
+		}
+		return "ok " + strings.Join(parts, " ; ") + " | " + note
 	case "bread":
 		s := c.sched()
 		n := c.nat()
@@ -756,7 +780,19 @@ func c13Gen(r *Rng, n int) []string {
 			case 1:
 				data += r.Pick([]string{"}", " } {\"a\":1}", "{", "\"", "{\"a\":\"x"})
 			}
-			s := r.mkSched(data, r.Pick2(0, 20), r.P(40))
+			zp := r.Pick2(0, 20)
+			if r.P(8) {
+				// a long document with an empty read before most of its bytes: hundreds of (0, nil)
+				// reads in total, never many in a row
+				data = `{"long":"` + strings.Repeat("ab", 60+r.Intn(60)) + `","n":{"m":[1,2,3]}}` + data
+				nd++
+				for len(data) < 260 {
+					data += " " + r.jsonStreamDoc()
+					nd++
+				}
+				zp = 55 + r.Intn(40)
+			}
+			s := r.mkSched(data, zp, r.P(40))
 			if r.P(5) && len(s) > 0 {
 				s[r.Intn(len(s))] = rd{'F', 0}
 			}
